@@ -248,6 +248,7 @@ struct Sim {
 };
 
 extern Sim *g_sim;
+extern char *g_curtask_shm;
 
 // helpers
 uint64_t fnv1a(const void *p, size_t n, uint64_t h = 1469598103934665603ull);
